@@ -4,11 +4,28 @@
    delete every stored unchanged node still EQUALS its record (synced), so
    eviction + reload is the identity at any point between operations (with
    C04_reader for the whole tree).  Guard as in C04 (finding F16).
-   (b) Inside an operation (pins of the C extension, sweeps from inside key
-   comparisons, failing operations leaving nothing pinned): checked by the
-   harness on both implementations; not modelled (see DESIGN.md). *)
+   (b) Inside an operation: the pins of the C extension (PER_USE / PER_UNUSE,
+   the sticky state).  Model/Pins.v transcribes the use / unuse discipline of
+   the three kinds of descent (lookup: hand-over; insert / delete: the whole
+   path stays pinned; range end: the root plus hand-over) with their error
+   exits, a comparison being the only point where foreign code (a sweep, an
+   exception) can run.  C05_pins_released: whichever comparison raises, or
+   none, the call releases exactly what it pinned, never releases a node it
+   does not hold, and so leaves nothing pinned.  C05_pins_protect: whenever a
+   comparison runs, the node holding the compared key is pinned (a sweep from
+   inside the comparison cannot evict it and free the keys being searched).
+   C05_write_path_pinned / C05_range_root_pinned: the nodes an insert / delete
+   will modify after its callee returns, resp. the root a range search returns
+   to, stay pinned throughout.  C05_pins_comparisons: the comparisons of these
+   traces are exactly C14's Search.cmp_trace.  The traces are tied to the code
+   by observing, inside every comparison of calls on stored trees, which nodes
+   are sticky (harness/props/c05.py part_g).  Not in the traces: the
+   comparison-free tails of the routines, the set-algebra and iterator entry
+   points (harness only: after every call nothing may be sticky), and what a
+   sweep does to an UNpinned node (that is part (a)). *)
 From Coq Require Import ZArith List Bool.
 From BT Require Import Model.RTree Model.TreeSpec Model.Persist Model.PersistSpec Proofs.SyncProofs.
+From BT Require Import Model.Search Model.Pins Proofs.PinsProofs.
 Import ListNotations.
 Open Scope Z_scope.
 
@@ -37,3 +54,50 @@ Proof. exact (SyncProofs.sync_del V). Qed.
 End C05.
 Print Assumptions C05_sync_set_partial.
 Print Assumptions C05_sync_del_partial.
+
+(* ---------- (b) pins ---------- *)
+Theorem C05_pins_released :
+  forall (d : disc) (p : list (nat * list Z)) (c : option nat) (P : list nat),
+  pins_after (ptr (pin_trace d p c)) P = P /\ unuse_ok (ptr (pin_trace d p c)) P = true.
+Proof. exact PinsProofs.pins_balanced. Qed.
+
+Theorem C05_pins_protect :
+  forall (d : disc) (p : list (nat * list Z)) (c : option nat) (P : list nat),
+  Forall (fun o => In (onode o) (opins o) /\ incl P (opins o)) (observe (ptr (pin_trace d p c)) P).
+Proof. exact PinsProofs.pins_protect. Qed.
+
+Theorem C05_write_path_pinned :
+  forall (id : nat) (ps : list Z) (rest : list (nat * list Z)) (c : option nat) (P : list nat),
+  Forall (fun o => In id (opins o)) (observe (ptr (set_tr ((id, ps) :: rest) c)) P).
+Proof. exact PinsProofs.set_head_pinned. Qed.
+
+Theorem C05_range_root_pinned :
+  forall (id : nat) (ps : list Z) (rest : list (nat * list Z)) (c : option nat) (P : list nat),
+  Forall (fun o => In id (opins o)) (observe (ptr (range_tr ((id, ps) :: rest) c)) P).
+Proof. exact PinsProofs.range_root_pinned. Qed.
+
+Theorem C05_pins_comparisons :
+  forall (V : Type) (d : disc) (sepcheck : bool) (t : tree V) (k : Z),
+  cmp_keys (ptr (pin_trace d (path_probes V sepcheck t k) None)) = cmp_trace V sepcheck t k.
+Proof. intros V d sc t k. rewrite PinsProofs.trace_keys. apply PinsProofs.path_probes_trace. Qed.
+
+(* a three-level tree: the three disciplines differ, and a raising comparison is really cut short *)
+Definition ex_tree : wtr :=
+  WTN [WTK 0 (WTN [WTK 0 (WTL [1; 2]); WTK 5 (WTL [5; 6])]);
+       WTK 10 (WTN [WTK 0 (WTL [10; 11]); WTK 15 (WTL [15; 16])])].
+Example C05_pins_example :
+  model_obs ex_tree 0 false 15 = [(10, [0%nat]); (15, [4%nat]); (16, [4; 6]%nat); (15, [4; 6]%nat)] /\
+  model_obs ex_tree 1 false 15 = [(10, [0%nat]); (15, [0; 4]%nat); (16, [0; 4; 6]%nat); (15, [0; 4; 6]%nat)] /\
+  model_obs ex_tree 2 false 15 = [(10, [0%nat]); (15, [0; 4]%nat); (16, [0; 4; 6]%nat); (15, [0; 4; 6]%nat)] /\
+  model_obs ex_tree 2 false 6 = [(10, [0%nat]); (5, [0; 1]%nat); (6, [0; 1; 3]%nat)] /\
+  ptr (pin_trace DGet (path_probes Z false (fst (number ex_tree 0%nat)) 15) None) =
+    [PUse 0%nat; PCmp 0%nat 10; PUnuse 0%nat; PUse 4%nat; PCmp 4%nat 15; PUse 6%nat; PCmp 6%nat 16; PCmp 6%nat 15;
+     PUnuse 6%nat; PUnuse 4%nat] /\
+  ptr (pin_trace DSet (path_probes Z false (fst (number ex_tree 0%nat)) 15) (Some 1%nat)) =
+    [PUse 0%nat; PCmp 0%nat 10; PUse 4%nat; PCmp 4%nat 15; PUnuse 4%nat; PUnuse 0%nat].
+Proof. vm_compute. repeat split. Qed.
+Print Assumptions C05_pins_released.
+Print Assumptions C05_pins_protect.
+Print Assumptions C05_write_path_pinned.
+Print Assumptions C05_range_root_pinned.
+Print Assumptions C05_pins_comparisons.
